@@ -77,8 +77,9 @@ type analysis struct {
 	knownMultiShape bool
 	skip            string // non-empty: outside the stated domain, nothing is demanded
 	// open input
-	chord []boundaryPoint
-	full  []orb.Point
+	endsOnBoundary int // end points lying exactly on the box boundary (path cut at the box)
+	chord          []boundaryPoint
+	full           []orb.Point
 }
 
 func (c Case) polys() ([][][]orb.Point, error) {
@@ -155,13 +156,37 @@ func mpPolys(mp orb.MultiPolygon) [][][]orb.Point {
 }
 
 // degenerateContact: a vertex within eps of the box boundary, or a box corner within eps of an edge.
-func degenerateContact(box orb.Bound, polys [][][]orb.Point, eps float64) (bool, string) {
+//
+// openEnds (open input only): the first / last point of the path may lie exactly on the boundary (the
+// path was cut at the box) provided it is no corner and the path goes straight into / comes straight
+// out of the open box there; that is no degenerate contact but the quantifier's "start and end ... on
+// the boundary". The number of such end points is returned.
+func degenerateContact(box orb.Bound, polys [][][]orb.Point, eps float64, openEnds bool) (bool, string, int) {
 	cs := corners(box)
+	ends := 0
 	for _, p := range polys {
 		for _, r := range p {
 			for i, v := range r {
+				if openEnds && (i == 0 || i == len(r)-1) && len(r) >= 2 && boxBoundaryDist(box, v) == 0 {
+					farFromCorners := true
+					for _, c := range cs {
+						if math.Hypot(c[0]-v[0], c[1]-v[1]) <= eps {
+							farFromCorners = false
+						}
+					}
+					var ok, at bool
+					if i == 0 {
+						ok, at, _ = openSeg(box, r[0], r[1])
+					} else {
+						ok, _, at = openSeg(box, r[len(r)-2], r[len(r)-1])
+					}
+					if farFromCorners && ok && at {
+						ends++
+						continue
+					}
+				}
 				if boxBoundaryDist(box, v) <= eps {
-					return true, "vertex on the box boundary"
+					return true, "vertex on the box boundary", ends
 				}
 				if i+1 < len(r) {
 					// cheap reject: the edge's bound must reach the corner
@@ -172,14 +197,14 @@ func degenerateContact(box orb.Bound, polys [][][]orb.Point, eps float64) (bool,
 							continue
 						}
 						if segDist(a, b, c) <= eps {
-							return true, "edge through a box corner"
+							return true, "edge through a box corner", ends
 						}
 					}
 				}
 			}
 		}
 	}
-	return false, ""
+	return false, "", ends
 }
 
 func analyse(c Case) (*analysis, error) {
@@ -262,17 +287,15 @@ func analyse(c Case) (*analysis, error) {
 			}
 		}
 	}
-	an.degen, an.degenWhy = degenerateContact(b, polys, an.eps)
+	an.degen, an.degenWhy, an.endsOnBoundary = degenerateContact(b, polys, an.eps, c.Kind == "open")
 	an.knownMultiShape = outerCross == 0 && ((outerIn > 0 && !an.allIn) || (outerIn == 0 && innerCross > 0))
 	an.knownMulti = c.Kind == "multipolygon" && an.knownMultiShape
 
 	if c.Kind == "open" {
 		r := polys[0][0]
-		if outsideDist(b, r[0]) <= an.eps || outsideDist(b, r[len(r)-1]) <= an.eps {
-			if !an.degen {
-				an.skip = "open input with an end point inside the box (implicitly closed; not quantified over)"
-				return an, nil
-			}
+		if strictlyInside(b, r[0]) || strictlyInside(b, r[len(r)-1]) {
+			an.skip = "open input with an end point inside the box (implicitly closed; not quantified over)"
+			return an, nil
 		}
 		if !an.meetsAny {
 			an.skip = "open input that does not enter the box"
@@ -319,6 +342,8 @@ type outcome struct {
 	zeroArea int // zero-area output rings (tolerated artefacts)
 	asked    int // query points actually asked
 	outPolys int
+	// holeNotFirst: the result has >= 2 polygons and a polygon other than the first carries a hole
+	holeNotFirst bool
 }
 
 func cloneRing(r orb.Ring) orb.Ring { return append(orb.Ring(nil), r...) }
@@ -423,6 +448,11 @@ func evaluate(c Case) (outcome, error) {
 		z, asked, err := judge(an, c, out)
 		if i == 0 {
 			oc.zeroArea, oc.asked, oc.outPolys = z, asked, len(out)
+			for pi, p := range out {
+				if pi > 0 && len(p) > 1 {
+					oc.holeNotFirst = true
+				}
+			}
 		}
 		if err != nil {
 			return oc, fmt.Errorf("%s: %v", e.name, err)
